@@ -45,7 +45,7 @@ META = dict(
           "ref_neighborhood", "ref_refined", "inv_parent_of_children", "inv_partition",
           "inv_coord_roundtrip", "inv_child_in_parent_cell", "inv_volume", "flat_bijection",
           "unbatched_calls"],
-    quick=dict(cases=160, workers=6, budget_s=60),
+    quick=dict(cases=120, workers=6, budget_s=60),
     thorough=dict(cases=1200, workers=16, budget_s=780),
     design_ref="DESIGN.md §5 C31",
     level_text=("every index of every level of ~150 (quick) generated grids from all grid families is "
